@@ -655,6 +655,7 @@ impl Engine for C17 {
                     timeout: std::time::Duration::from_secs(60),
                     stdout_to: None,
                     stdin_file: None,
+                    stderr_to: None,
                 },
             );
             res.stats.evaluations += 1;
